@@ -299,13 +299,7 @@ def run(ctx):
     esc = ctx.escape('engine', kills=common.engine_kills(ctx))
     ctx.check('NoProposalChosen' in esc.escapes(sb), 'N6', 'no acceptable proposal raises NoProposalChosen', key=('N6', 'raises'),
               site=ctx.site(sb, sb.node))
-    ok = False
-    for pc, t, _ in S.returns:
-        caught = [a[0] for a in pc if a[0][0] == 'caught' and a[1]]
-        if caught and 'NoProposalChosen' in tq.text(caught[0]):
-            st = strip_ids(t)
-            ok = st[0] == 'list' and len(st[1]) == 1 and tq.is_call(st[1][0], 'message.PayloadNOTIFY.from_exception') \
-                and list(tq.args(st[1][0]).values())[0][0] == 'exc'
+    ok = common.own_notify_for(ctx, fi, 'NoProposalChosen')
     ctx.check(ok, 'N6', 'the refusal is answered with the single notification built from the exception', key=('N6', 'refusal-reply'),
               site=ctx.site(fi, fi.node))
     nt = tq.args(note).get('notification_type', NONE) if tq.is_call(note, 'new message.PayloadNOTIFY') else NONE
